@@ -10,7 +10,9 @@ from vp_common import Atom, Ctx, line, run_driver
 
 PROP = 'C02'
 RULE = ('C01 pair families (30% equal-sum / equal-histogram non-identical pairs) x injective relabelings of either or both sides '
-        '(random permutation of the used codes, +offset, order reversal, sparse injection below 2^20), cc on and off. '
+        '(random permutation of the used codes, +offset, order reversal, sparse injection below 2^20), cc on and off; plus batch '
+        'HISTORIES through mixed_rank_graph (string columns whose vocabulary grows past 255 over 2-3 batches of one process): every '
+        'batch must score like its own columns under first-occurrence coding. '
         'Non-trivial = both sides non-constant and Y != X; distinct = distinct (partition structure, relabeling kind, cc).')
 ASSUMPTIONS = ['float32 rounding: tolerance 4e-6*(1+ln n) (doubled when two implementation values are compared)',
                'relabelings keep the pair identical iff it was identical (the same map on both sides of an identical pair), '
@@ -96,6 +98,93 @@ def evaluate(ctx: Ctx, cases, oracle_only=False):
             ctx.sample({'family': c['family'], 'cc': c['cc'], 'Y': Y[:12], 'X': X[:12], 'Y2': c['Y2'][:12], 'X2': c['X2'][:12], 'impl': a, 'impl_relabeled': b, 'spec': spec})
 
 
+# ---------------------------------------------------------------------------------------------
+# category coding of the batch columns (mixed_rank_graph): the score of a batch depends on the equality pattern of ITS values
+# only – not on which strings they are, and not on what earlier batches of the same process contained
+
+def first_occurrence_codes(vals):
+    seen = {}
+    return [seen.setdefault(v, len(seen)) for v in vals]
+
+
+def gen_batches(rng):
+    """2-3 batches with the columns f, g, label; the vocabulary of f grows past 255 / past the int8 range over the batches while
+    single batches stay small (any run-wide code book, dtype chosen per batch, or cache keyed by value would show)"""
+    nb = rng.choice([2, 2, 3])
+    big = rng.choice([130, 260, 300, 700])
+    batches = []
+    for b in range(nb):
+        if b == 0 or rng.random() < 0.3:
+            n = 2 * big
+            f = [f'v{(i * 7 + b) % big}' for i in range(n)]
+        else:
+            n = rng.choice([40, 120, 200])
+            pool = [f'v{rng.randrange(big)}' for _ in range(rng.choice([2, 3, 5]))] + [f'w{b}_{k}' for k in range(rng.choice([1, 2, 4]))]
+            f = [rng.choice(pool) for _ in range(n)]
+        label = [str(rng.randrange(2)) for _ in range(n)]
+        g = [f'{x}|{y}' if rng.random() < 0.7 else 'z' for x, y in zip(f, label)]
+        batches.append({'f': f, 'g': g, 'label': label})
+    return {'batches': batches, 'heuristic': rng.choice(['MI-numba-randomized', 'MI-numba-3mr']), 'target_only': rng.random() < 0.5}
+
+
+def evaluate_batches(ctx: Ctx, cases, oracle_only=False):
+    import logging
+    import types
+
+    import pandas as pd
+    from outrank import core_ranking as cr
+
+    class Pool:
+        ncpus = nodes = 1
+
+        def __enter__(self):
+            return self
+
+        def __exit__(self, *a):
+            return False
+
+        def amap(self, f, xs):
+            r = [f(x) for x in xs]
+            return types.SimpleNamespace(ready=lambda: True, get=lambda: r)
+
+    class PB:
+        def set_description(self, *a, **k):
+            pass
+
+    for c in cases:
+        ctx.evaluations += 1
+        ctx.count('batch-history:%d-batches' % len(c['batches']))
+        cr.GLOBAL_PRIOR_COMB_COUNTS.clear()
+        args = types.SimpleNamespace(heuristic=c['heuristic'], label_column='label', mi_stratified_sampling_ratio=1.0,
+                                     target_ranking_only='True' if c['target_only'] else 'False', reference_model_JSON='',
+                                     combination_number_upper_bound=2 ** 15)
+        logging.disable(logging.CRITICAL)
+        try:
+            for k, b in enumerate(c['batches']):
+                df = pd.DataFrame(b)
+                out = cr.mixed_rank_graph(df, args, Pool(), PB())
+                cc = c['heuristic'] == 'MI-numba-randomized'
+                for a, bb, s in out.triplet_scores:
+                    if bb != 'label' or a == 'label':
+                        continue
+                    Y, X = first_occurrence_codes(b[a]), first_occurrence_codes(b['label'])
+                    want = impl_mi(Y, X, 1.0, cc)          # the same estimator on a relabeling of the batch's own columns (C02 itself)
+                    if k > 0:
+                        ctx.nontrivial.add(hash(('hist', kernel_key(Y, X), k)))
+                    if not abs(float(s) - want) <= 2 * tol(len(X)):
+                        ctx.oracle_fail('batch-coding', f'batch #{k} of {len(c["batches"])} ranked in one process ({c["heuristic"]}): pair ({a!r}, \'label\') scored '
+                                        f'{float(s)!r}, but the batch\'s own columns (first-occurrence codes) score {want!r}: the score depends on the '
+                                        f'category codes / on earlier batches', {'batches': c['batches'][:k + 1], 'heuristic': c['heuristic'], 'target_only': c['target_only']})
+                        raise StopIteration
+        except StopIteration:
+            pass
+        except Exception as e:      # noqa: BLE001
+            ctx.oracle_fail('batch-raises', f'mixed_rank_graph raised {type(e).__name__}: {e} on a batch history', c)
+        finally:
+            logging.disable(logging.NOTSET)
+            cr.GLOBAL_PRIOR_COMB_COUNTS.clear()
+
+
 def corpus():
     Y, X = [0, 1, 0, 1, 2, 2, 1, 0], [1, 0, 1, 0, 2, 2, 0, 1]
     return [{'family': 'F1', 'Y': Y, 'X': X, 'Y2': [y + 5 for y in Y], 'X2': X, 'kind': 'offset', 'side': 'Y', 'cc': True},
@@ -106,10 +195,20 @@ def corpus():
 def run(ctx: Ctx):
     n = 5000 if ctx.thorough() else 700
     evaluate(ctx, corpus() + [make_case(ctx.rng, ctx.thorough()) for _ in range(n)])
+    evaluate_batches(ctx, [gen_batches(ctx.rng) for _ in range(60 if ctx.thorough() else 8)])
+
+
+def replay(ctx: Ctx, payload):
+    c = payload['case']
+    if 'batches' in c:
+        evaluate_batches(ctx, [c])
+    else:
+        evaluate(ctx, [c])
 
 
 def search(ctx: Ctx):
     sub = Ctx(ctx.prop, ctx.tier)
     sub.rng.seed(f'search:{ctx.seed}')
     evaluate(sub, [make_case(sub.rng, False) for _ in range(3000)], oracle_only=True)
+    evaluate_batches(sub, [gen_batches(sub.rng) for _ in range(40)], oracle_only=True)
     return sub.oracle_failures
